@@ -108,6 +108,39 @@ DESC = {
     "C20-r3m1": "_merge recurses only into tomlkit Table (inline / out-of-order tables replaced wholesale)",
     "C20-r3m2": "lru_cache on get_config_dir (config home resolved once per process)",
     "C20-r3m3": "lines starting with # dropped from the user's file before parsing (multi-line strings)",
+    "C01-r4m1": "memory delete via list.remove(event): Event.__eq__ ignores the id (content-identical events)",
+    "C01-r4m2": "sqlite update_bucket via INSERT OR REPLACE (new rowid, the bucket's events orphaned)",
+    "C01-r4m3": "peewee JSON with ensure_ascii=False + errors='replace' (unpaired surrogate becomes '?')",
+    "C02-r4m1": "Bucket.delete: `if not event_id: return False` swallows id 0 (memory ids start at 0)",
+    "C02-r4m2": "peewee replace delegates to insert_one, which keys on event.id, not on the id argument",
+    "C02-r4m3": "memory: get_events sorts the stored list in place + next id from the last element (two sites)",
+    "C03-r4m1": "memory limit handling: any negative limit other than -1 becomes a slice",
+    "C03-r4m2": "sqlite window predicate rewritten with BETWEEN (an event spanning the whole window is missed)",
+    "C03-r4m3": "peewee clips only the first and the last returned event",
+    "C04-r4m1": "sqlite insert_one as INSERT OR REPLACE with event.id (the same Event object in two buckets)",
+    "C04-r4m2": "peewee replace builds the row from event.id instead of the id argument",
+    "C04-r4m3": "peewee create_bucket predicts the new key as len(bucket_keys)+1",
+    "C05-r4m1": "memory db as defaultdict(list): a stale-handle read re-creates the deleted id",
+    "C05-r4m2": "sqlite update_bucket via INSERT OR REPLACE",
+    "C05-r4m3": "peewee bucket data serialised with ensure_ascii=False (unpaired surrogate raises)",
+    "C06-r4m1": "sqlite PRAGMA journal_mode=MEMORY (pages spilled before COMMIT, no journal: malformed after a crash)",
+    "C06-r4m2": "sqlite delete_bucket starts with `WITH ... DELETE`: Python's sqlite3 opens no implicit transaction for it",
+    "C06-r4m3": "resumable migration: check_for_migration on every start, buckets present are skipped (deleted ones come back)",
+    "C07-r4m1": "sqlite start-up housekeeping: DELETE FROM events WHERE endtime <= starttime (zero-length events)",
+    "C07-r4m2": "peewee update_bucket as INSERT OR REPLACE without the key (new rowid, events vanish)",
+    "C07-r4m3": "sqlite MAX_TIMESTAMP lowered to year 2262",
+    "C12-r4m1": "query_bucket bypasses the Bucket facade (no rounding of the window edges)",
+    "C12-r4m2": "query() swaps a window given end-first",
+    "C12-r4m3": "query_bucket clips events to the query window itself",
+    "C14-r4m1": "buckets.name declared STRING (numeric affinity: '007' becomes 7)",
+    "C14-r4m2": "migration opens the first detected file (a backup copy sorts first)",
+    "C14-r4m3": "sqlite create_bucket NFC-normalises the bucket id",
+    "C18-r4m1": "conditional_commit(now=datetime.now()) default argument frozen at import",
+    "C18-r4m2": "sticky _in_bulk flag after a failed insert_many disables conditional_commit",
+    "C18-r4m3": "delete/replace return before conditional_commit when rowcount == 0",
+    "C20-r4m1": "_merge: a default table is never replaced by a user scalar/array",
+    "C20-r4m2": "os.path.expandvars on the user's file",
+    "C20-r4m3": "_merge depth guard on a mutable default argument (path list grows across calls)",
 }
 
 
@@ -128,7 +161,7 @@ def main():
         m["breaks_property"] = own
         m["change"] = DESC.get(name, "")
         m["needs_to_manifest"] = " ".join(needs)[:900] if needs else notes[:600]
-        m["author"] = "independent sub-agent, round %d; saw only the property text and a private worktree" % (3 if "-r3" in name else 2 if "-r2" in name else 1)
+        m["author"] = "independent sub-agent, round %d; saw only the property text and a private worktree" % (4 if "-r4" in name else 3 if "-r3" in name else 2 if "-r2" in name else 1)
         json.dump(m, open(mp, "w"), indent=1)
         det = []
         first = ""
@@ -143,7 +176,7 @@ def main():
         rows.append((name, own, DESC.get(name, ""), "yes (%s)" % first if own in det else "**no**", ", ".join(c for c in det if c != own) or "—", ", ".join(harness) or ""))
     out = ["## Appendix F — seeded changes and the checks that catch them", "",
            "Generated by `tools/appendix_f.py` from `seeded/*/meta.json` (each change applied to a scratch worktree,",
-           "`VERIF_REPO=<worktree> check.py <ID> --tier quick`). `-m*` = first round, `-r2m*` / `-r3m*` = second / third round (agents were",
+           "`VERIF_REPO=<worktree> check.py <ID> --tier quick`). `-m*` = first round, `-r2m*` / `-r3m*` / `-r4m*` = second / third / fourth round (agents were",
            "told which ideas had been used and asked for other mechanisms). \"own check\" = the check of the property the change was written against.", "",
            "| id | change | own check (first oracle) | also caught by |", "|----|--------|--------------------------|----------------|"]
     for name, own, desc, owns, others, harness in rows:
